@@ -6,7 +6,7 @@ built in which *every other* `#[cache..]` / `#[cache_async..]` attribute has bee
 so a failure is attributable to that one attribute list; a control copy with all attributes deleted must compile.  Every
 list of the corpus compiled at the pinned commit and follows the documented attribute grammar."""
 import os, re, shutil, subprocess, json
-from .front import VERIF, BUILD, _env
+from .front import VERIF, BUILD, _env, crate_dir
 
 ATTR = re.compile(r'#\[cache(?:_async)?(?:\((?:[^\[\]]|\[[^\[\]]*\])*\))?\]\s*')
 FN = re.compile(r'\bfn\s+([A-Za-z_][A-Za-z0-9_]*)')
@@ -38,7 +38,7 @@ def _name_at(lines, j):
 def _build(tag, text):
     d = os.path.join(BUILD, 'c19c', tag)
     shutil.rmtree(d, ignore_errors=True); os.makedirs(os.path.join(d, 'src'))
-    sub = os.path.join(VERIF, 'subjects')
+    sub = crate_dir('subjects')
     for f in ('Cargo.toml', 'Cargo.lock'):
         if os.path.exists(os.path.join(sub, f)): shutil.copy(os.path.join(sub, f), os.path.join(d, f))
     for f in ('lib.rs', 'env.rs'): shutil.copy(os.path.join(sub, 'src', f), os.path.join(d, 'src', f))
